@@ -16,7 +16,7 @@ RULE = ("band-limited fields (|f| <= fs/8: Gaussian/NRZ pulse trains, low-pass r
 ASSUMPTIONS = [
     "'relative error bounded by a constant times phi_max' is decided with the calibrated constant C=100 on inputs band-limited to fs/8 (observed err/phi_max: "
     "typically < 5, up to ~54 when 9 rad of SPM broadens the spectrum past fs/4); rel_err = max|out-ref|/max|ref|; in addition a 4x smaller phi_max must shrink an "
-    "error that lies in the regime [1e-3, 0.3] by at least 10% (below 1e-3 the observed error is no longer proportional to phi_max: it is dominated by the first, power-limited steps)",
+    "error that lies in the regime [1e-3, 0.3] by at least 10% unless it is already below 5*phi_max (below 1e-3 the observed error is no longer proportional to phi_max: it is dominated by the first, power-limited steps)",
     "a case counts for the NLSE comparison only if the reference is sensitive: recomputed with gamma*1.05 and with beta2*1.05 it moves by more than 5x the tolerance (or error level) applied",
     "scalar-NLSE clauses (SPM closed form, convergence, 1-pol equivalence) are asserted for one populated polarisation; with power in both rows only finiteness and "
     "the energy law are asserted (the statement's |in|^2 is ambiguous there)",
@@ -246,7 +246,9 @@ def e_case(c):
                     # (only where phi_max actually governs the step: the nonlinear phase gamma*P*L_eff spans at least 3 steps of the coarser setting)
                     if pb <= pa / 4 and 1e-3 <= errs[pa] <= 0.3 and gamma * ppk * (L if anp == 0 else -np.expm1(-anp * L) / anp) >= 3 * pa:
                         cls.append("convergence-pair" if sens > 5 * errs[pa] else "convergence-pair-insensitive")
-                        check(errs[pb] <= 0.9 * errs[pa] + 1e-7, "nlse-error-does-not-shrink-with-phi_max",
+                        # (an error that is already below 5*phi_max at the finer setting is within the O(phi_max) band where a correct
+                        #  scheme may fluctuate, e.g. with the length of its last partial step; it is not held to shrink further)
+                        check(errs[pb] <= 0.9 * errs[pa] + 1e-7 or errs[pb] <= 5 * pb, "nlse-error-does-not-shrink-with-phi_max",
                               f"phi_max {pa} -> {pb}: rel err {errs[pa]:.3e} -> {errs[pb]:.3e}; gamma*P*L={phinl:.2f} disp={disp_phase:.2f} rad")
             cls.append("nlse-sensitive" if sensitive else "nlse-insensitive")
             cls.append("ratio<=1" if max(e_ / p for p, e_ in errs.items()) <= 1 else "ratio<=5" if max(e_ / p for p, e_ in errs.items()) <= 5 else "ratio<=25")
